@@ -860,7 +860,13 @@ def signature(case, out, why):
     if t[0] == "fe":
         g = parse_fe_case(case)
         return "fe:%s:%s" % (g["kind"], (why or "")[:40])
-    if t[0] in ("hist", "histj"):
+    if t[0] == "vox":
+        if t[1] == "burgers" and float(t[7]) == 0 and float(t[9]) == 0 and float(t[8]) != 0 and why and "voxel assembler" in why:
+            # F6: the voxel Burgers host kernel gathers the convection dofs only if beta != 0 or streamline diffusion is
+            # on; with only frechet_beta != 0 the Frechet term is assembled from a zero field
+            return "c16-edge:F6"
+        return "vox:%s:%s" % (t[1], (why or "")[:40])
+    if t[0] in ("hist", "histj", "flocal"):
         return "%s:%s" % (t[0], (why or "")[:50])
     if t[0] == "trace":
         if why and why.startswith("after clear()"):
@@ -1587,6 +1593,152 @@ def oracle_hist(case, out):
         return "unparsable implementation output (%s): %s" % (repr(e), out[:200])
 
 
+
+# ---------------------------------------------------------------------------------------------
+# local stream: the local matrices of affine cells vs. the model's cubature sums over C15's basis polynomials
+# ---------------------------------------------------------------------------------------------
+
+FLOCAL_RULES = {"h": ["barycentre", "trapezoidal", "simpson", "newton-cotes-closed:2", "newton-cotes-closed:3",
+                      "newton-cotes-closed:4", "newton-cotes-closed:5"],
+                "s": ["barycentre", "trapezoidal", "lauffer-degree-2"]}
+
+
+def gen_flocal_cfg(rng):
+    shape = rng.choice(["line", "quad", "quad", "tria", "tria"])
+    dim, fam = SHAPES[shape]
+    kind = rng.choice(["mass", "lapl", "force"])
+    sp = rng.choice(["L1", "L2"])
+    level = rng.randint(0, {"line": 3, "quad": 1, "tria": 1}[shape]) if sp == "L1" else rng.randint(0, 1 if shape != "tria" else 0)
+    h = F(1, 2 ** level) if fam == "h" else F(1, 2 ** (level + 1))
+    moves = []
+    if shape != "quad" and rng.random() < 0.7:      # moved triangles / intervals stay affine, moved quads do not
+        for _ in range(rng.randint(1, 3)):
+            moves.append((rng.randrange(64), [F(rng.randint(-5, 5), 40) * h for _ in range(dim)]))
+    rule = rng.choice(FLOCAL_RULES[fam])
+    cu = rand_poly_coefs(rng, dim, DEG[sp])
+    cv = rand_poly_coefs(rng, dim, rng.choice([0, 1, 2]) if kind == "force" else DEG[sp])
+    g = dict(shape=shape, dim=dim, fam=fam, level=level, moves=moves, kind=kind, tsp=sp, ssp=sp, d=0, rule=rule,
+             alpha=rand_alpha(rng) or F(1), cu=cu, cv=cv)
+    return g
+
+
+def flocal_line(g, fe_out):
+    if is_abnormal(fe_out):
+        return None
+    r = parse_fe_out(fe_out)
+    if not mesh_valid(g["dim"], g["fam"], r["verts"], r["cells"]):
+        return None
+    geo = " ".join("%d %s" % (len(c), " ".join(fs(x) for v in c for x in r["verts"][v])) for c in r["cells"])
+    return "flocal %s %s GEO %s %s %s %s %d %d %s" % (g["shape"], fe_cfg_tokens(g), g["kind"], g["tsp"], g["rule"],
+                                                    fmt_qlist(g["cv"]), g["dim"], len(r["cells"]), geo)
+
+
+def oracle_flocal(case, out):
+    try:
+        if is_abnormal(out):
+            return "recording the local matrices ended with " + out
+        t = case.split()
+        shape = t[1]
+        dim, fam = SHAPES[shape]
+        c = Tk(t[t.index("GEO") + 1:])
+        kind, sp, rule = c.tok(), c.tok(), c.tok()
+        c.qlst()
+        d, nc = c.nat(), c.nat()
+        cells = [[[c.q() for _ in range(d)] for _ in range(c.nat())] for _ in range(nc)]
+        o = Tk(out)
+        o.expect("L")
+        if o.nat() != nc:
+            return "wrong number of local matrices"
+        k = DEG[sp]
+        deg = {"barycentre": 1, "trapezoidal": 1, "simpson": 3, "newton-cotes-closed:2": 1, "newton-cotes-closed:3": 3,
+               "newton-cotes-closed:4": 3, "newton-cotes-closed:5": 5, "lauffer-degree-2": 2}[rule]
+        for V in cells:
+            vals = o.qlst()
+            if kind == "force":
+                continue
+            n = int(round(len(vals) ** 0.5))
+            if n * n != len(vals):
+                return "local matrix is not square"
+            for i in range(n):
+                for j in range(n):
+                    if vals[i * n + j] != vals[j * n + i]:
+                        return "local matrix of a symmetric form is not symmetric"
+                if kind == "lapl" and sum(vals[i * n:(i + 1) * n]) != 0:
+                    return "local Laplace matrix does not annihilate constants"
+            if kind == "mass" and deg >= 2 * k:
+                if dim == 1:
+                    vol = abs(V[1][0] - V[0][0])
+                elif fam == "s":
+                    vol = abs((V[1][0] - V[0][0]) * (V[2][1] - V[0][1]) - (V[1][1] - V[0][1]) * (V[2][0] - V[0][0])) / 2
+                else:
+                    vol = abs((V[1][0] - V[0][0]) * (V[2][1] - V[0][1]) - (V[1][1] - V[0][1]) * (V[2][0] - V[0][0]))
+                if sum(vals) != vol:
+                    return "entries of the local mass matrix sum to %s, the cell volume is %s" % (sum(vals), vol)
+        return None
+    except (IndexError, ValueError, AssertionError, KeyError) as e:
+        return "unparsable implementation output (%s): %s" % (repr(e), out[:200])
+
+
+
+# ---------------------------------------------------------------------------------------------
+# voxel stream (double precision, SUPPORTING EVIDENCE only): voxel assemblers vs classic vs job routes
+# ---------------------------------------------------------------------------------------------
+
+VOXEL_UNITS = ["kernel/voxel_assembly/arch/poisson_assembler.cpp", "kernel/voxel_assembly/arch/burgers_assembler.cpp",
+               "kernel/voxel_assembly/arch/defo_assembler.cpp"]
+
+
+def gen_vox_case(rng, tier):
+    dim = rng.choice([2, 2, 3])
+    level = rng.randint(0, 2) if dim == 2 else rng.randint(0, 1 if tier != "quick" or rng.random() < 0.3 else 0)
+    rule = rng.choice(["auto-degree:3", "auto-degree:4", "auto-degree:5", "auto-degree:6", "gauss-legendre:3",
+                       "newton-cotes-closed:5"])
+    kind = rng.choice(["poisson", "defo", "burgers", "burgers"])
+    dec = lambda lst: rng.choice(lst)
+    if kind == "poisson":
+        return "vox poisson %d %d %s" % (dim, level, rule)
+    if kind == "defo":
+        return "vox defo %d %d %s %s" % (dim, level, rule, dec(["0.78", "1", "0.01", "2.5"]))
+    return "vox burgers %d %d %s %s %s %s %s %s %d %s %d" % (
+        dim, level, rule, dec(["0.78", "1", "0.01"]), dec(["0", "1.3", "1"]), dec(["0", "0.3", "1"]), dec(["0", "1", "0.5"]),
+        dec(["0", "0.57", "0.1", "1"]), rng.randrange(2), dec(["1", "0.66", "2"]), rng.randrange(1000))
+
+
+def oracle_vox(case, out):
+    """all three routes agree within an a-priori rounding bound (double precision; supporting evidence)"""
+    try:
+        if is_abnormal(out):
+            return "voxel / classic / job assembly on a voxel-compatible mesh ended with " + out
+        t = out.split()
+        assert t[0] == "VX"
+        dim = int(t[2])
+        p = 3
+        assert t[p] == "R"
+        n = int(t[p + 1])
+        rp = [int(x) for x in t[p + 2:p + 2 + n]]
+        p += 2 + n
+        sec = {}
+        for tag in ("A", "B", "V"):
+            assert t[p] == tag
+            m = int(t[p + 1])
+            sec[tag] = [float.fromhex(x) for x in t[p + 2:p + 2 + m]]
+            p += 2 + m
+        bs = len(sec["A"]) // max(1, rp[-1])
+        u = 2.0 ** -52
+        for i in range(len(rp) - 1):
+            lo, hi = rp[i] * bs, rp[i + 1] * bs
+            scale = max(1.0, sum(abs(x) for x in sec["A"][lo:hi]))
+            tol = 1.0e5 * u * scale       # <= 8 cells x 216 points x ~50 operations per entry, gamma_n * |row|
+            for k in range(lo, hi):
+                for other, name in ((sec["B"], "domain-assembler job"), (sec["V"], "voxel assembler")):
+                    if not (abs(other[k] - sec["A"][k]) <= tol):
+                        return "row %d: %s gives %r, classic assembler %r (rounding bound %.3g)" % (
+                            i, name, other[k], sec["A"][k], tol)
+        return None
+    except (IndexError, ValueError, AssertionError, KeyError) as e:
+        return "unparsable implementation output (%s): %s" % (repr(e), out[:200])
+
+
 CORPUS_SYNTH = [
     "asmb 1 2 2 2 2 2 2 0 1 1 1 2 0 1 1 1 2 0 1 1/1 16 1/1 0/1 0/1 1/1 1/1 2/1 0/1 1/1 1/1 1/1 0/1 1/1 1/1 3/1 0/1 1/1 2/1 4 1/1 5/1 0/1 1/1",
     # F3 (open, c16-edge:F3): no cell has both a test and a trial dof -> entry-free matrix -> null row_ptr dereferenced
@@ -1631,8 +1783,10 @@ def main(argv):
     quick = args.tier == "quick"
     if args.replay:
         rc = json.load(open(args.replay))["input"]
-        synth = [rc] if rc.split()[0] not in ("fe", "feasm", "bg", "bgsd", "ops", "trace", "hist", "histj") else []
+        synth = [rc] if rc.split()[0] not in ("fe", "feasm", "bg", "bgsd", "ops", "trace", "hist", "histj", "flocal", "vox") else []
+        vox = [rc] if rc.split()[0] == "vox" else []
         hist = [rc] if rc.split()[0] in ("hist", "histj") else []
+        flocal = [rc] if rc.split()[0] == "flocal" else []
         ops = [rc] if rc.split()[0] in ("ops", "trace") else []
         fe = [rc] if rc.split()[0] == "fe" else []
         feasm_extra = [rc] if rc.split()[0] == "feasm" else []
@@ -1647,6 +1801,12 @@ def main(argv):
         ops = CORPUS_OPS + [gen_ops_case(rng, args.tier, k) for k in range(50 if quick else 400)]
         ops += CORPUS_TRACE + [gen_trace_case(rng) for _ in range(60 if quick else 600)]
         hist = None
+        flocal = None
+        vox = ["vox poisson 2 1 auto-degree:5", "vox defo 2 1 auto-degree:5 0.78",
+               "vox burgers 2 1 auto-degree:5 0.78 1.3 0.3 1.0 0.57 1 0.66 3",
+               # F6 (open, c16-edge:F6): only the Frechet term needs the convection field
+               "vox burgers 2 1 auto-degree:5 1 1 0 0.5 0 0 1 324"] + \
+              [gen_vox_case(rng, args.tier) for _ in range(40 if quick else 400)]
     env = {"VERIF_CASE_TIMEOUT": "120"}
     # pre-run of the fe cases: the recorded cell contributions become the input of the model
     feasm = list(feasm_extra)
@@ -1690,7 +1850,35 @@ def main(argv):
         except Exception as e:
             vlib.log("history pre-run failed: %s" % e)
             hist = [g_[0] + " REC M1 0 0 0" for g_ in gens]
+    if flocal is None:
+        flocal = []
+        cfgs = [gen_flocal_cfg(rng) for _ in range(100 if quick else 1000)]
+        try:
+            geo_outs = vlib.run_lines([binary], ["fe %s %s" % (g_["shape"], fe_cfg_tokens(g_)) for g_ in cfgs], env=env)
+            for g_, out in zip(cfgs, geo_outs):
+                try:
+                    l = flocal_line(g_, out)
+                except Exception:
+                    l = None
+                if l is not None:
+                    flocal.append(l)
+        except Exception as e:
+            vlib.log("local pre-run failed: %s" % e)
+    vbinary, verr = vlib.build_harness("c16v", os.path.join(vlib.VERIF, "harness", "c16v", "main.cpp"),
+                                       units=vlib.BASE_UNITS + VOXEL_UNITS)
+    if vbinary is None:
+        v = [{"property": PROP, "kind": "harness-build-failure", "detail": verr, "failing_input": None,
+              "broken": "harness c16v does not compile against the current tree"}]
+        return vlib.finish(PROP, args.tier, args.seed, t0, lean, [], [], v, [])
     streams = [
+        vlib.Stream("voxel(double,supporting)", vox, [vbinary], None, oracle=oracle_vox, nontrivial=lambda c: int(c.split()[3]) >= 1,
+                    describe=lambda c: ["kind:" + c.split()[1], "dim:" + c.split()[2], "level:" + c.split()[3]],
+                    signature=signature, env=env),
+        vlib.Stream("local", flocal, [binary], vlib.driver_cmd(PROP), oracle=oracle_flocal, nontrivial=lambda c: True,
+                    describe=lambda c: ["shape:" + c.split()[1], "kind:" + c.split()[c.split().index("GEO") + 1],
+                                        "space:" + c.split()[c.split().index("GEO") + 2],
+                                        "rule:" + c.split()[c.split().index("GEO") + 3]],
+                    signature=signature, env=env),
         vlib.Stream("history", hist, [binary], vlib.driver_cmd(PROP), oracle=oracle_hist, nontrivial=lambda c: True,
                     describe=lambda c: ["route:" + ("classic" if c.split()[0] == "hist" else "job"), "shape:" + c.split()[1]],
                     signature=signature, env=env),
@@ -1728,14 +1916,17 @@ def main(argv):
             "trace assembler facet selection incl. clear(). every fe/burgers/operators/trace case runs a discarded "
             "warm-up request of the same template instantiations (other rule, other coefficients) before the judged one; "
             "history: requests [warm-up, real, warm-up, real, real] in one process, classic and job route, all five "
-            "results against the model's assembleSeq, the three real ones equal")
+            "results against the model's assembleSeq, the three real ones equal. local: the local matrices / vectors the "
+            "real cell loop produces on affine cells (intervals, squares, arbitrary triangles; L1/L2; identity, Laplace, "
+            "force; rational rules) against the model's cubature sums over C15's basis polynomials")
     rc = vlib.run_pipeline(PROP, args.tier, args.seed, lean, streams, t0, assumptions=[
         "Index modelled as unbounded Nat (no 64-bit overflow at the sizes FEAT can allocate)",
         "reading a never written _col_ptr slot (coupling outside the pattern, first touch) is undefined behaviour: "
         "modelled as failure, not generated",
         "exactness of a cubature rule at Q means rational points and weights: Newton-Cotes, Lauffer, trapezoidal, "
         "barycentre rules (Gauss rules are stored as rounded doubles and are not exact at Q)",
-        "voxel assemblers (double only) are not covered; blocked value types only through the Burgers routes",
+        "voxel assemblers are float/double only: stream voxel(double,supporting) compares voxel / classic / job routes in "
+        "double precision within an a-priori rounding bound (1e5 * 2^-52 * row sum of |A|) - supporting evidence, not exact",
         "sqrt at Q is the deterministic rational q_sqrt of exact_q.hpp on every route (Burgers |v|, directed mesh width)"],
         extra_cov={"rule": rule})
     return rc
